@@ -301,6 +301,7 @@ type crossJob struct {
 	other client
 	pre   []byte
 	suf   []byte
+	tag   string // how the identity pair was built (near-identical identities part); part of signature and class keys
 }
 
 // crossReveal runs every reveal operation under `other` on a value protected for a.owner.
@@ -317,7 +318,7 @@ func crossReveal(r *ev.Run, j crossJob, rvs []revealFn) {
 			return map[string]interface{}{"keystore": a.env.Name, "owner": string(a.owner.id), "owner_rotations": a.owner.rotations, "requester": string(j.other.id), "requester_rotations": j.other.rotations,
 				"produced_by": a.ep.name, "produced_at_step": a.step, "reveal": rv.name, "plaintext": ev.FullHex(a.x), "stored": ev.FullHex(in), "got": ev.FullHex(out), "err": fmt.Sprint(err), "panic": pan}
 		}
-		sig := fmt.Sprintf("ks=%s produced=%s reveal=%s", a.env.Name, a.ep.name, rv.name)
+		sig := fmt.Sprintf("ks=%s produced=%s reveal=%s%s", a.env.Name, a.ep.name, rv.name, j.tag)
 		if pan != "" {
 			// a crash is C03/C14's subject; here it only means this operation returned nothing
 			r.Count("cross_reveal_panicked", 1)
@@ -331,14 +332,14 @@ func crossReveal(r *ev.Run, j crossJob, rvs []revealFn) {
 		switch {
 		case err != nil:
 			r.Count("cross_reveal_refused", 1)
-			r.Distinct(fmt.Sprintf("%s|%s|%s|own%d|req%d|refused", a.env.Name, a.ep.name, rv.name, a.owner.rotations, j.other.rotations))
+			r.Distinct(fmt.Sprintf("%s|%s|%s|own%d|req%d|refused%s", a.env.Name, a.ep.name, rv.name, a.owner.rotations, j.other.rotations, j.tag))
 		case bytes.Equal(out, in):
 			r.Count("cross_reveal_returned_stored_form_unchanged", 1)
-			r.Distinct(fmt.Sprintf("%s|%s|%s|own%d|req%d|unchanged", a.env.Name, a.ep.name, rv.name, a.owner.rotations, j.other.rotations))
+			r.Distinct(fmt.Sprintf("%s|%s|%s|own%d|req%d|unchanged%s", a.env.Name, a.ep.name, rv.name, a.owner.rotations, j.other.rotations, j.tag))
 		case rv.mask != nil && maskOnly(out, in, rv.mask):
 			// masked column that cannot be decrypted: the bare masking pattern, no byte of the value (C11 judges the window)
 			r.Count("cross_reveal_masked_column_returned_bare_pattern", 1)
-			r.Distinct(fmt.Sprintf("%s|%s|%s|own%d|req%d|mask-only", a.env.Name, a.ep.name, rv.name, a.owner.rotations, j.other.rotations))
+			r.Distinct(fmt.Sprintf("%s|%s|%s|own%d|req%d|mask-only%s", a.env.Name, a.ep.name, rv.name, a.owner.rotations, j.other.rotations, j.tag))
 		default:
 			// neither an error nor the stored form: the statement allows only those two
 			r.Violation("reveal under another client identity returned an altered value (neither failure nor the stored form): "+sig, detail())
@@ -609,6 +610,7 @@ func Run(r *ev.Run) {
 
 	// --- other parts ---------------------------------------------------------------------------
 	part(r, "search-hash", func() { searchHashUnderOther(r, envs, rng) })
+	part(r, "near-identical-identities", func() { nearIdentities(r, rng) })
 	part(r, "relocation-v1", func() { relocationV1(r, rng) })
 	part(r, "relocation-v2", func() { relocationV2(r, rng) })
 	part(r, "token-stores", func() { tokenStores(r, envs, rng) })
